@@ -26,6 +26,11 @@ def d9(ctx, res):
         res.evaluations += 1; res.count('D9 schedule runs')
         case = {kk: r[kk] for kk in ('nested_publish_returned', 'outer_publish_returned', 'subscribe_returned', 'released_by_close')}
         case['schedule'] = 'Subscribe(topic-0); Publish(topic-0, m1) blocks for the Ack holding the read lock; consumer receives m1; Subscribe(topic-1) requests the write lock; consumer calls Publish(topic-1, m2) before Ack'
+        for nr in r.get('nested') or []:
+            res.evaluations += 1; res.count('nested publish without pending subscribe')
+            if not (nr['nested_returned'] and nr['outer_returned']):
+                res.violations.append(dict(signature='C05/blocking-publish-does-not-return-when-consumer-publishes-from-receive-loop',
+                                           what='blocking mode (persistent=%s): the consumer publishes to another topic before acking, nothing else is going on - the Publish calls never return' % nr['persistent'], case=nr))
         if not r['nested_publish_returned']:
             res.violations.append(dict(signature='C05/blocking-publish-deadlock-consumer-publishes-before-ack-with-pending-subscribe(D9)',
                                        what='deadlock: the consumer\'s Publish, the blocked outer Publish and the pending Subscribe never return (until Close)', case=case))
